@@ -98,7 +98,7 @@ class CcBaseCompiler(BuildCommand):
             if isinstance(i, opts.include_dir):
                 flags.extend(self._include_dir(i.directory, not pkgconf_mode))
             elif isinstance(i, opts.define):
-                if i.value:
+                if i.value is not None:
                     flags.append('-D' + i.name + '=' + i.value)
                 else:
                     flags.append('-D' + i.name)
